@@ -240,6 +240,19 @@ Theorem C12_wsp_no_media_before_play :
 Proof. exact (conj weffects_only_on_success wmedia_only_after_play). Qed.
 Print Assumptions C12_wsp_no_media_before_play.
 
+(* "media" is an RTP frame of a track this session has set up: a frame is predicted only while media
+   flows and a track has an interleaved channel 0..255 (rtp.Packet.Write sends nothing otherwise), and
+   a track's channel is changed only by a SETUP that the status table lets through — before PLAY *)
+Theorem C12_wsp_media_only_on_setup_tracks :
+  (forall ext s, wmedia_of ext s = true ->
+     wflows s = true /\ (chan_ok (w_vch s) = true \/ chan_ok (w_ach s) = true)) /\
+  (forall e s rq s' rs fs,
+     wstep e s rq = (s', rs, fs) -> w_vch s' <> w_vch s \/ w_ach s' <> w_ach s ->
+     exists q, rq_cmd rq = CWrap q /\ wq_meth q = WmSetup /\ w_status s <> WPlaying /\
+               w_inited s = true /\ w_closed s = false).
+Proof. exact (conj wmedia_needs_track wchannels_only_by_setup). Qed.
+Print Assumptions C12_wsp_media_only_on_setup_tracks.
+
 (* TEARDOWN and disconnect release whatever the session held; in every reachable state a consumer
    is held only by an established, open, playing session *)
 Theorem C12_wsp_teardown_or_disconnect_releases : forall e s rq q,
